@@ -199,6 +199,39 @@ theorem C08_desc_path_root (env : Env) (s : Step) (Q : List Step) (fns : List Fn
   have h := C08_desc_path env [] s Q fns hf hs hQ d
   simpa [evalPath, applyFns, evalSteps] using h
 
+
+/-! ### concrete instances (both sides evaluated) -/
+
+private def doc : Val :=
+  .obj [("a", .arr [.obj [("x", .num 1), ("y", .num 10)], .obj [("y", .num 20)], .obj [("x", .num 3), ("y", .num 30)]]),
+        ("b", .obj [("x", .num 4), ("y", .num 40)])]
+private def P : List Step := [.child ".a" "a"]
+private def Q : List Step := [.filter "[?(@.x)]" (.exist false (.mk .cur [.child ".x" "x"] [])), .child ".y" "y"]
+
+example : Spec.run Registry.env (.mk .root (P ++ Q) [.ffn ".twice()" "twice"]) doc = some [.num 20, .num 60] := rfl
+example : Spec.run Registry.env (.mk .root P []) doc =
+    some [.arr [.obj [("x", .num 1), ("y", .num 10)], .obj [("y", .num 20)], .obj [("x", .num 3), ("y", .num 30)]]] := rfl
+example : Spec.run Registry.env (.mk .root Q [.ffn ".twice()" "twice"])
+    (.arr [.obj [("x", .num 1), ("y", .num 10)], .obj [("y", .num 20)], .obj [("x", .num 3), ("y", .num 30)]]) =
+    some [.num 20, .num 60] := rfl
+/-- `$..y` visits the containers in pre-order: the document, `a`, its three elements, `b` -/
+example : Spec.run Registry.env (.mk .root [.desc (.child "y" "y")] []) doc = some [.num 10, .num 20, .num 30, .num 40] := rfl
+example : (Val.containers doc).length = 6 := rfl
+/-- the root matters for a continuation that mentions `$`: `rootFree` cannot be dropped -/
+example :
+    let Q' : List Step := [.filter "[?(@.x>=$.b.x)]"
+      (.cmp .ge (.path (.mk .cur [.child ".x" "x"] [])) (.path (.mk .root [.child ".b" "b", .child ".x" "x"] [])))]
+    Spec.run Registry.env (.mk .root ([.child ".a" "a"] ++ Q') []) (.obj [("a", .arr [.obj [("x", .num 4)]]), ("b", .obj [("x", .num 4)])])
+      = some [.obj [("x", .num 4)]] ∧
+    Spec.run Registry.env (.mk .root Q' []) (.arr [.obj [("x", .num 4)]]) = none := ⟨rfl, rfl⟩
+
+/-- an aggregate function sees all selected values at once: "no aggregate" cannot be dropped -/
+example :
+    Spec.run Registry.env (.mk .root ([.child ".a" "a", .wild ".*"] ++ []) [.afn ".max()" "max"]) (.obj [("a", .arr [.num 1, .num 2])])
+      = some [.num 2] ∧
+    ((Spec.run Registry.env (.mk .root [.child ".a" "a", .wild ".*"] []) (.obj [("a", .arr [.num 1, .num 2])])).getD []).flatMap
+        (fun v => (Spec.run Registry.env (.mk .root [] [.afn ".max()" "max"]) v).getD []) = [.num 1, .num 2] := ⟨rfl, rfl⟩
+
 end C08
 end JPV
 -- OBLIGATIONS: JPV.C08.C08_sel_root_independent JPV.C08.C08_evalSteps_root_independent JPV.C08.C08_verdicts_root_independent JPV.C08.C08_compose JPV.C08.C08_compose_run JPV.C08.C08_compose_fails_iff JPV.C08.C08_compose_ok JPV.C08.C08_union_concat JPV.C08.C08_union_singles JPV.C08.C08_multi_concat JPV.C08.C08_multi_concat_obj JPV.C08.C08_multi_singles_obj JPV.C08.C08_desc_preorder JPV.C08.C08_containers_preorder JPV.C08.C08_desc_steps JPV.C08.C08_desc_path JPV.C08.C08_desc_path_root
